@@ -37,7 +37,25 @@ def pref_sets(repo):
     documented = set(re.findall(r'^(\w+) = ', doc, flags=re.M))
 
     def assigned(fn):
-        return {t.attr: n.value for n in ast.walk(fn) if isinstance(n, ast.Assign) for t in n.targets if isinstance(t, ast.Attribute) and text(t.value) == 'self'}
+        d = {t.attr: n.value for n in ast.walk(fn) if isinstance(n, ast.Assign) for t in n.targets if isinstance(t, ast.Attribute) and text(t.value) == 'self'}
+        if len(d) >= 5:
+            return d
+        # not written as plain assignments (a table and setattr, say): evaluate the method on an empty model object
+        from sa.absint import Evaluator, Obj, Raised
+
+        me = Obj()
+        r = Evaluator(fn, module=m, cls='Preferences').run(self=me)
+        if isinstance(r, Raised):
+            raise AnalysisError(f'Preferences.{fn.name}: {r!r}')
+        out = {}
+        for k, v in vars(me).items():
+            if k.startswith('_'):
+                continue
+            try:
+                out[k] = ast.parse(repr(v), mode='eval').body
+            except SyntaxError:
+                raise AnalysisError(f'Preferences.{fn.name}: value of {k} has no literal form')
+        return out
 
     defaults = assigned(m.get('Preferences.useDefaults'))
     minified = assigned(m.get('Preferences.useMinified'))
